@@ -71,12 +71,11 @@ def observe(case, xs=None):
     out = {"N": N}
     out["names"] = list(obj.node_names)
     out["arcs"] = [((i, j), (ei(a.get_travel_time()), ei(a.get_cost()))) for (i, j), a in obj.arcs.items()]
-    n = obj.get_num_variables()
-    out["n"] = int(n)
-    out["fixed"] = [(tuple(int(z) for z in t), ei(v)) for t, v in obj.fixed_values.items()]
-    out["vars"] = [tuple(int(z) for z in t) for t in obj.var_mapping]
     probes = [(v, s, k) for v in range(V) for s in range(L) for k in range(N)]
     probes += [(V, 0, 0), (0, L, 0), (0, 0, N), (V, L, N), (V + 1, 1, 0), (0, L + 1, 1)]
+    if not case.get("lookup_first"):
+        obj.get_num_variables()
+    # with lookup_first the index lookups are the very first queries on the object (they enumerate themselves)
     pr = []
     for t in probes:
         try:
@@ -86,6 +85,10 @@ def observe(case, xs=None):
             r = None
         pr.append((t, r))
     out["probe"] = pr
+    n = obj.get_num_variables()
+    out["n"] = int(n)
+    out["fixed"] = [(tuple(int(z) for z in t), ei(v)) for t, v in obj.fixed_values.items()]
+    out["vars"] = [tuple(int(z) for z in t) for t in obj.var_mapping]
     out["tup"] = []
     for k in range(n + 3):
         t = obj.get_var_tuple_index(k)
@@ -100,9 +103,11 @@ def observe(case, xs=None):
         c, Q = obj.get_objective_data()
     out["obj"] = (len(c), [ei(v) for v in c], tuple(Q.shape), dense(Q))
     out["dec"] = []
-    for x in (xs or []):
+    for i, x in enumerate(xs or []):
         try:
-            r = obj.get_routes(np.array(x, dtype=float))
+            # with lookup_first the first decoding is the very first query on a fresh object
+            dec_obj = build(case) if (i == 0 and case.get("lookup_first")) else obj
+            r = dec_obj.get_routes(np.array(x, dtype=float))
             out["dec"].append((list(x), ("ok", [[int(k) for k in route] for route in r])))
         except Exception as e:  # noqa
             out["dec"].append((list(x), ("err", exc_cls(e))))
@@ -254,7 +259,7 @@ def gen_case(rng, kind=None):
             ops0 = nodes + arcs[:k] + [("depot", other)] + arcs[k:]
         else:
             ops1 = nodes + arcs[:k] + [("depot", other)] + arcs[k:]
-    return {"kind": kind, "rich": rich, "strict": strict, "ops0": ops0, "ops1": ops1, "V": V, "L": L, "vc": vc}
+    return {"kind": kind, "rich": rich, "lookup_first": rng.random() < 0.5, "strict": strict, "ops0": ops0, "ops1": ops1, "V": V, "L": L, "vc": vc}
 
 
 def depot_first(case):
